@@ -13,6 +13,8 @@ package keygen
 //@   ensures[C20] result1 == nil ==> (result0 != nil && ((old(secretShare) == nil) == (old(public) == nil)))
 // (induction on the session object) the first round starts from the state invariant its methods assume
 //@   ensures result1 == nil ==> ((typeis(result0, *round1R) ==> d0rok(result0.(*round1R))) && (typeis(result0, *round1S) ==> (d1sok(result0.(*round1S)))) && (typeis(result0, *round1R) || typeis(result0, *round1S)))
+// (C04, C05) the announced final round number covers every round the session can reach, the identifiable-abort rounds included
+//@   ensures[C04,C05] result1 == nil ==> ((typeis(result0, *round1R) ==> result0.(*round1R).Helper.info.FinalRoundNumber >= 3) && (typeis(result0, *round1S) ==> result0.(*round1S).Helper.info.FinalRoundNumber >= 3))
 
 // ---- derivation (C14): a new configuration; the parent is left untouched; public + adjust*G; the shares are additive,
 // so exactly one of them absorbs the adjustment: receiver share + adjust, sender share unchanged (composition lemma
@@ -57,7 +59,7 @@ package keygen
 
 // ---- round state invariants (established by StartKeygen and the Finalize methods) and what the CBOR decoder leaves in
 // the content templates (A-CBOR: pre-shaped interface values stay non-nil, pointers may be nil)
-//@ pred dhok(h *round.Helper) := h != nil && h.hash != nil && h.hash.h != nil && h.info.Group != nil && typeis(h.info.Group, curve.Secp256k1) && !held(h.mtx)
+//@ pred dhok(h *round.Helper) := h != nil && h.info.FinalRoundNumber >= 3 && h.hash != nil && h.hash.h != nil && h.info.Group != nil && typeis(h.info.Group, curve.Secp256k1) && !held(h.mtx)
 //@ pred d1rok(r *round1R) := r != nil && dhok(r.Helper) && r.secretShare != nil && r.publicShare != nil && ot.csrok(r.receiver) && (r.refresh ==> r.public != nil)
 //@ pred d2rok(r *round2R) := r != nil && d1rok(r.round1R) && r.refreshScalar != nil && r.refreshScalar != r.secretShare
 //@ pred d1sok(r *round1S) := r != nil && dhok(r.Helper) && r.secretShare != nil && r.publicShare != nil && ot.cssok(r.sender) && (r.refresh ==> r.public != nil)
@@ -142,6 +144,9 @@ package keygen
 // next round the state invariant it relies on.
 //@ pred d0rok(r *round1R) := r != nil && dhok(r.Helper) && r.secretShare != nil && r.publicShare != nil && r.receiver != nil && r.receiver.hash != nil && r.receiver.hash.h != nil && r.receiver.group != nil && (r.refresh ==> r.public != nil)
 //@ func (*round1R).Finalize
+// (C04, C05) the round handed to the handler is one the session announced: its number is within the final round
+// number, so the handler holds a queue for it and waits for every party before finalizing it
+//@   ensures[C04,C05] result1 == nil ==> result0.Number() <= old(r.Helper.info.FinalRoundNumber)
 //@   nopanic[C05]
 //@   requires d0rok(r) && out != nil && !closed(out)
 //@   ensures result1 == nil ==> (typeis(result0, *round2R) && d2rok(result0.(*round2R)))
@@ -151,6 +156,9 @@ package keygen
 //@   ensures typeis(result0, *round.Abort) ==> result0.(*round.Abort).Err != nil
 //@   ensures typeis(result0, *round.Output) ==> result0.(*round.Output).Result != nil
 //@ func (*round1S).Finalize
+// (C04, C05) the round handed to the handler is one the session announced: its number is within the final round
+// number, so the handler holds a queue for it and waits for every party before finalizing it
+//@   ensures[C04,C05] result1 == nil ==> result0.Number() <= old(r.Helper.info.FinalRoundNumber)
 //@   nopanic[C05]
 //@   requires d1sok(r) && ot.cssok1(r.sender) && out != nil && !closed(out) && r.otMsg != nil
 //@   ensures result1 == nil ==> (typeis(result0, *round2S) && d2sok(result0.(*round2S)))
@@ -160,6 +168,9 @@ package keygen
 //@   ensures typeis(result0, *round.Abort) ==> result0.(*round.Abort).Err != nil
 //@   ensures typeis(result0, *round.Output) ==> result0.(*round.Output).Result != nil
 //@ func (*round2R).Finalize
+// (C04, C05) the round handed to the handler is one the session announced: its number is within the final round
+// number, so the handler holds a queue for it and waits for every party before finalizing it
+//@   ensures[C04,C05] result1 == nil ==> result0.Number() <= old(r.Helper.info.FinalRoundNumber)
 //@   nopanic[C05]
 //@   requires d2rok(r) && out != nil && !closed(out)
 //@   ensures result1 == nil ==> (typeis(result0, *round3R) && result0.(*round3R).round2R == r)
@@ -169,6 +180,9 @@ package keygen
 //@   ensures typeis(result0, *round.Abort) ==> result0.(*round.Abort).Err != nil
 //@   ensures typeis(result0, *round.Output) ==> result0.(*round.Output).Result != nil
 //@ func (*round2S).Finalize
+// (C04, C05) the round handed to the handler is one the session announced: its number is within the final round
+// number, so the handler holds a queue for it and waits for every party before finalizing it
+//@   ensures[C04,C05] result1 == nil ==> result0.Number() <= old(r.Helper.info.FinalRoundNumber)
 //@   nopanic[C05]
 //@   requires d2sok(r) && out != nil && !closed(out)
 //@   ensures result1 == nil ==> (typeis(result0, *round3S) && result0.(*round3S).round2S == r)
@@ -178,6 +192,9 @@ package keygen
 //@   ensures typeis(result0, *round.Abort) ==> result0.(*round.Abort).Err != nil
 //@   ensures typeis(result0, *round.Output) ==> result0.(*round.Output).Result != nil
 //@ func (*round3R).Finalize
+// (C04, C05) the round handed to the handler is one the session announced: its number is within the final round
+// number, so the handler holds a queue for it and waits for every party before finalizing it
+//@   ensures[C04,C05] result1 == nil ==> result0.Number() <= old(r.Helper.info.FinalRoundNumber)
 //@   nopanic[C05]
 //@   requires r != nil && d2rok(r.round2R) && out != nil && !closed(out)
 // refinement of the interface contract of round.Round.Finalize (what the handler relies on)
@@ -186,6 +203,9 @@ package keygen
 //@   ensures typeis(result0, *round.Abort) ==> result0.(*round.Abort).Err != nil
 //@   ensures typeis(result0, *round.Output) ==> result0.(*round.Output).Result != nil
 //@ func (*round3S).Finalize
+// (C04, C05) the round handed to the handler is one the session announced: its number is within the final round
+// number, so the handler holds a queue for it and waits for every party before finalizing it
+//@   ensures[C04,C05] result1 == nil ==> result0.Number() <= old(r.Helper.info.FinalRoundNumber)
 //@   nopanic[C05]
 //@   requires r != nil && d2sok(r.round2S) && out != nil && !closed(out)
 // refinement of the interface contract of round.Round.Finalize (what the handler relies on)
